@@ -87,6 +87,7 @@ type mgrIn struct {
 	MaintFile bool       `json:"maint_file"`
 	AbortAtStmt int      `json:"abort_at_stmt"` // >0: the operator deletes the switch key when the n-th mutating statement of the iteration arrives
 	LockLostAt int       `json:"lock_lost_at"`  // -1 never; k: the k-th AcquireLock of iteration FaultAt returns false
+	RaceSwitch *mgrSwitch `json:"race_switch,omitempty"` // a second initiator files this request while iteration FaultAt is reading last_switch (between the manager's look and its own filing)
 }
 
 type mgrStep struct {
@@ -108,6 +109,7 @@ type mgrStep struct {
 	LockHeld  bool
 	Restarted bool // a fresh manager process runs this iteration
 	CutNow    map[string]bool // hosts the manager cannot reach in this iteration
+	Raced     bool            // the second initiator got its request in during this iteration
 }
 type mgrOut struct {
 	Steps []mgrStep
@@ -403,6 +405,15 @@ func mgrRun(in mgrIn) mgrOut {
 				d.faults = append(d.faults, &memFault{Op: "lock", Nth: in.LockLostAt})
 			}
 		}
+		d.onGet = nil
+		if in.RaceSwitch != nil && k == in.FaultAt {
+			d.onGet = func(path string) {
+				if path == pathLastSwitch && !d.rawHas(pathCurrentSwitch) {
+					d.rawSet(pathCurrentSwitch, in.RaceSwitch.toSwitchover(time.Now()))
+					st.Raced = true
+				}
+			}
+		}
 		w.OnStatement = nil
 		if in.AbortAtStmt > 0 && k == in.FaultAt {
 			cnt := 0
@@ -426,6 +437,7 @@ func mgrRun(in mgrIn) mgrOut {
 			st.Next = app.stateManager()
 		}()
 		d.silent = true
+		d.onGet = nil
 		synctest.Wait()
 		st.Trans = w.Transcript()
 		st.FailedAfter = mgrFailed(app)
